@@ -16,6 +16,7 @@ import (
 	"path/filepath"
 	"sort"
 	"strings"
+	"sync/atomic"
 	"testing"
 
 	"github.com/influxdata/influxdb/pkg/verifhook"
@@ -274,6 +275,9 @@ func TestVerifC01Crash(t *testing.T) {
 			}
 		}
 		crashes, ackedAfterCrash, restartsAfterAck := 0, 0, 0
+		// a cache snapshot whose install failed stays pending in memory until a later snapshot succeeds or the
+		// process restarts
+		pendingFailed, failedSnapshots, ackedAfterFailed := false, 0, 0
 		doWrite := func(pts []vPt, label string) {
 			crashed, err := c.run("write", true, func() error { return c.b.write(1, pts) })
 			infl := map[vKey]vVal{}
@@ -289,6 +293,7 @@ func TestVerifC01Crash(t *testing.T) {
 					c.hist[k] = append(c.hist[k], fmt.Sprintf("%d:inflight-write(%v)@%s", c.step, v, c.lastEv))
 				}
 				crashes++
+				pendingFailed = false
 				note(label + "!crash@" + c.lastEv)
 				if ackedAfterCrash > 0 {
 					restartsAfterAck++
@@ -311,6 +316,9 @@ func TestVerifC01Crash(t *testing.T) {
 			}
 			if crashes > 0 {
 				ackedAfterCrash++
+			}
+			if pendingFailed {
+				ackedAfterFailed++
 			}
 			note(label)
 		}
@@ -337,6 +345,9 @@ func TestVerifC01Crash(t *testing.T) {
 			"snapshot": func(rt *rapid.T) {
 				c.rt = rt
 				crashed, err := c.run("snapshot", true, func() error { return c.b.snapshot(1) })
+				if crashed || err == nil {
+					pendingFailed = false
+				}
 				if crashed {
 					crashes++
 					note("snapshot!crash@" + c.lastEv)
@@ -350,6 +361,29 @@ func TestVerifC01Crash(t *testing.T) {
 				}
 				note("snapshot")
 			},
+			"snapshotFails": func(rt *rapid.T) {
+				// the new file cannot be installed (the file store observer refuses it, as an I/O error would): the
+				// snapshot fails, its store stays pending and is retried by a later snapshot; acknowledged writes
+				// made in between must survive that retry and every later crash
+				c.rt = rt
+				if rapid.IntRange(0, 2).Draw(rt, "rare") != 0 {
+					rt.Skip("rare")
+				}
+				atomic.StoreInt32(&vObs.failNext, 1)
+				before := atomic.LoadInt32(&vObs.refused)
+				_, err := c.run("snapshotFails", false, func() error { return c.b.snapshot(1) })
+				atomic.StoreInt32(&vObs.failNext, 0)
+				if atomic.LoadInt32(&vObs.refused) > before {
+					if err == nil {
+						rt.Fatalf("%s WriteSnapshot returned nil although the file store refused to install the new file", verifkit.Sig("failed-snapshot-reported-as-success"))
+					}
+					pendingFailed = true
+					failedSnapshots++
+					note("snapshotFails")
+				} else {
+					note("snapshotFails(nothing to install)")
+				}
+			},
 			"compact": func(rt *rapid.T) {
 				c.rt = rt
 				kind := rapid.SampledFrom([]string{"l1", "l2", "forcefull", "forcefull", "opt"}).Draw(rt, "kind")
@@ -357,6 +391,7 @@ func TestVerifC01Crash(t *testing.T) {
 				crashed, err := c.run("compact", true, func() error { var e error; n, e = c.b.compact(1, kind); return e })
 				if crashed {
 					crashes++
+					pendingFailed = false
 					note("compact-" + kind + "!crash@" + c.lastEv)
 					if ackedAfterCrash > 0 {
 						restartsAfterAck++
@@ -370,6 +405,11 @@ func TestVerifC01Crash(t *testing.T) {
 			},
 			"delete": func(rt *rapid.T) {
 				c.rt = rt
+				if pendingFailed {
+					// known finding delete-inside-snapshot-window (C10): a delete does not reach a pending snapshot store
+					stats.Exclude("delete-inside-snapshot-window")
+					rt.Skip("a failed snapshot is pending")
+				}
 				sel := vSel{M: rapid.SampledFrom([]string{"m0", "m1", ""}).Draw(rt, "m")}
 				if rapid.Bool().Draw(rt, "byHost") {
 					sel.TagK, sel.TagV = "host", rapid.SampledFrom(vHosts).Draw(rt, "host")
@@ -417,6 +457,7 @@ func TestVerifC01Crash(t *testing.T) {
 				c.rt = rt
 				c.b.close()
 				c.recover("after clean close")
+				pendingFailed = false
 				if ackedAfterCrash > 0 {
 					restartsAfterAck++
 				}
@@ -436,6 +477,12 @@ func TestVerifC01Crash(t *testing.T) {
 		}
 		if crashes >= 2 {
 			cl = append(cl, "crashes>=2")
+		}
+		if failedSnapshots > 0 {
+			cl = append(cl, "failedSnapshotInstall")
+		}
+		if ackedAfterFailed > 0 {
+			cl = append(cl, "ackedWriteWhileFailedSnapshotPending")
 		}
 		stats.Case(nontrivial, canon.String(), cl...)
 		if stats.WantSample() {
